@@ -94,6 +94,7 @@ structure Ctx where
   allow : Option (List Uuid) := none
   followAv : Bool := false
   followSnap : Bool := false
+  spy : Bool := false
 
 def Ctx.http (c : Ctx) : HttpCfg := { cfg := c.sys.cfg, params := c.sys.params, allow := c.allow, ensure := c.sys.ensure }
 
@@ -101,6 +102,11 @@ def runReq {α} (st : St) (p : ReqM α) : α × St :=
   match st with
   | .mem m => let (o, m') := p.run MemB .inPlace m; (o, .mem m')
   | .sql s => let (o, s') := p.run SqlB .snapshotCommit s; (o, .sql s')
+
+def countTxns {α} (st : St) (p : ReqM α) : Nat :=
+  match st with
+  | .mem m => p.txnCount MemB .inPlace m
+  | .sql s => p.txnCount SqlB .snapshotCommit s
 
 def execCall (st : St) (cl : Uuid) (c : Call) : Except StorageErr c.Resp :=
   match st with
@@ -234,7 +240,7 @@ def step (ctx : Ctx) (lhs : String) (implObs : String := "") : Ctx × String :=
       | some "" | some "empty" => some []
       | some l => some ((l.splitOn ",").filterMap uuidOf)
     let ensure := if kvOf ws "ensure" = some "pinned" then ensureClientPinned else ensureClientFixed
-    ({ ctx with st := st, sys := { cfg := ⟨days, vers⟩, params := Params.impl, ensure := ensure }, allow := allow }, "")
+    ({ ctx with st := st, sys := { cfg := ⟨days, vers⟩, params := Params.impl, ensure := ensure }, allow := allow, spy := kvOf ws "spy" = some "1" }, "")
   | "end" :: _ => (ctx, "")
   | "dump" :: c :: rest =>
     match uuidOf c with
@@ -278,7 +284,8 @@ def step (ctx : Ctx) (lhs : String) (implObs : String := "") : Ctx × String :=
             | _, _, _ => st'
           else ctx.st
         else st'
-      ({ ctx with st := st'' }, showResp resp ++ acc)
+      let spy := if ctx.spy then s!" txns={countTxns ctx.st (serve ctx.http r)}" else ""
+      ({ ctx with st := st'' }, showResp resp ++ acc ++ spy)
   | _ =>
     match parseEv ws with
     | none => (ctx, "bad-op")
